@@ -306,6 +306,9 @@ func Execute(p *Plan, scratch string) (res *Result) {
 	if sim.ImplicitBlocks > 0 {
 		res.Stats.Probes["baton holder parked inside uninstrumented code (watchdog)"] += int(sim.ImplicitBlocks)
 	}
+	if sim.PreemptedTx() {
+		res.Stats.Probes["bolt transaction body ran goroutines of its own (run not repeatable)"]++
+	}
 	if sim.BlockedLock > 0 {
 		res.Stats.Probes["lock contention (task parked on a lock)"] += int(sim.BlockedLock)
 	}
@@ -316,6 +319,8 @@ func Execute(p *Plan, scratch string) (res *Result) {
 		}
 	}
 	switch sim.AbortReason {
+	case "artifact":
+		res.Infra = "simulation artifact: " + sim.AbortDetail
 	case "deadlock":
 		r.setViol("deadlock", "deadlock: "+normGraph(sim.AbortDetail), "all requests complete", sim.AbortDetail)
 	case "wedged":
